@@ -17,6 +17,8 @@ import Desync.Proofs.PoolCSProofs
 import Desync.Proofs.PoolProofs
 import Desync.Proofs.ChunkStreamProofs
 import Desync.Proofs.PoolJobsProofs
+import Desync.Proofs.RemoteStoresProofs
+import Desync.Proofs.RemoteStoresShapes
 
 namespace Desync.C06
 open Desync
@@ -105,5 +107,140 @@ theorem chunkstream_failure_not_ok (H : Bytes → Bytes) (jobs : List (Nat × By
     (h : CStream.Reachable H (CStream.St.init jobs n) s) (rows : List CStream.Row)
     (hr : s.result = some (.ok rows)) : s.groupErr = false ∧ s.broke = false ∧ s.next = jobs.length :=
   CStream.failure_not_ok H jobs n s h rows hr
+
+/-! ### the S3 and SFTP chunk stores as targets (`Model/RemoteStores.lean`) -/
+
+open Desync.Remote in
+/-- **`S3Store.StoreChunk` is truthful**: it returns nil iff the data was available, `toStorage` worked and one of the
+    attempts `1 … max ErrorRetry 1` succeeded (ErrorRetry 0 and 1: one attempt; k: k attempts); it makes at most
+    `max ErrorRetry 1` requests, all before the last failed; on nil the object holds exactly `toStorage(data)`, put by
+    the last attempt; on an error the object is what it was and (when it got as far as the loop) the whole budget was used -/
+theorem s3_store_truthful (retry : Nat) (data : Option Bytes) (toSt : Bytes → Option Bytes)
+    (out : Nat → PutOutcome) (obj : Option Bytes) (r : S3StoreOut)
+    (h : s3StoreChunk retry data toSt out obj = r) :
+    (r.res = .ok ↔ ∃ d b, data = some d ∧ toSt d = some b ∧ ∃ k, 1 ≤ k ∧ k ≤ max retry 1 ∧ out k = .ok) ∧
+    r.attempts ≤ max retry 1 ∧
+    (∀ k, 1 ≤ k → k < r.attempts → out k = .fail) ∧
+    (r.res = .ok → ∃ d b, data = some d ∧ toSt d = some b ∧ r.obj = some b ∧ out r.attempts = .ok) ∧
+    (r.res = .error → r.obj = obj) ∧
+    (r.res = .error → ∀ d b, data = some d → toSt d = some b → r.attempts = max retry 1) :=
+  Remote.s3_store_truthful retry data toSt out obj r h
+
+open Desync.Remote in
+/-- not vacuous, and the seeded regression as a concrete case: every attempt fails ⇒ an error, nothing stored -/
+example : (s3StoreChunk 3 (some [1]) some (fun _ => .fail) none) = ⟨.error, 3, none⟩ ∧
+    (s3StoreChunk 3 (some [1]) some (fun k => if k = 3 then .ok else .fail) none) = ⟨.ok, 3, some [1]⟩ ∧
+    (s3StoreChunk 0 (some [1]) some (fun k => if k = 2 then .ok else .fail) none) = ⟨.error, 1, none⟩ ∧
+    (s3StoreChunk 1 (some [1]) some (fun k => if k = 2 then .ok else .fail) none) = ⟨.error, 1, none⟩ := by
+  simp [s3StoreChunk, s3PutLoop]
+
+open Desync.Remote in
+/-- **partial — named for what it is**: `HasChunk` of the S3 and the SFTP store reports a FAILING stat request
+    (permission denied, outage, connection lost) as `(false, nil)` — "absent" — and never returns an error.  What is
+    missing for a clean contract: the failure is not reported (`verify`-like callers that only ask HasChunk are told
+    "absent" during an outage). -/
+theorem s3_has_masks_failures_partial (o : StatOutcome) :
+    s3HasChunk .failure = ⟨false, false⟩ ∧ sftpHasChunk .failure = ⟨false, false⟩ ∧
+    (s3HasChunk o).err = false ∧ (sftpHasChunk o).err = false ∧
+    ((s3HasChunk o).has = true ↔ o = .found) ∧ ((sftpHasChunk o).has = true ↔ o = .found) :=
+  Remote.has_masks_failures o
+
+open Desync.Remote in
+/-- … and under C06's use it cannot become a false success: in `ChunkStorage.StoreChunk` a `false` from HasChunk only
+    makes `StoreChunk` run, whose own (truthful) result is returned; nil therefore means the object exists, and when
+    HasChunk had not said `true` it holds exactly `toStorage(data)` -/
+theorem has_false_is_safe_for_bulk_writes (retry : Nat) (data : Option Bytes) (toSt : Bytes → Option Bytes)
+    (st : StatOutcome) (out : Nat → PutOutcome) (obj : Option Bytes)
+    (hworld : st = .found → obj.isSome = true)
+    (hok : (bulkStore retry data toSt st out obj).res = .ok) :
+    (bulkStore retry data toSt st out obj).obj.isSome = true ∧
+    (st ≠ .found → ∃ d b k, data = some d ∧ toSt d = some b ∧ (bulkStore retry data toSt st out obj).obj = some b ∧
+      1 ≤ k ∧ k ≤ max retry 1 ∧ out k = .ok) :=
+  Remote.has_false_is_safe_for_bulk_writes retry data toSt st out obj hworld hok
+
+open Desync.Remote in
+example : (bulkStore 2 (some [7]) some .failure (fun _ => .fail) none).res = .error ∧
+    (bulkStore 2 (some [7]) some .failure (fun _ => .ok) none) = ⟨.ok, 1, some [7]⟩ := by
+  simp [bulkStore, s3HasChunk, s3StoreChunk, s3PutLoop]
+
+open Desync.Remote in
+/-- **`SFTPStoreBase.StoreObject` is atomic on the final name**, for every failure point (every `e`, every length of a
+    partial copy): nil ⇒ the final name holds the complete object and the temp name is gone; error ⇒ the final name has
+    its previous content (or still does not exist) — never a prefix; no other name is touched; what is left under the
+    temp name is a prefix of the object (or what was there) -/
+theorem sftp_store_atomic (name digits b : Bytes) (e : SftpEnv) (d : RDir) (hd : digits ≠ []) :
+    ((sftpStoreObject name digits b e d).res = .ok →
+      (sftpStoreObject name digits b e d).dir.get name = some b ∧
+      (sftpStoreObject name digits b e d).dir.get (name ++ digits) = none) ∧
+    ((sftpStoreObject name digits b e d).res = .error →
+      (sftpStoreObject name digits b e d).dir.get name = d.get name) ∧
+    (∀ n, n ≠ name → n ≠ name ++ digits → (sftpStoreObject name digits b e d).dir.get n = d.get n) ∧
+    (∀ c, (sftpStoreObject name digits b e d).dir.get (name ++ digits) = some c →
+      (∃ k, c = b.take k) ∨ d.get (name ++ digits) = some c) :=
+  Remote.sftp_store_atomic name digits b e d hd
+
+open Desync.Remote in
+/-- every failing step is reported: nil exactly when a `Create` got through and copy, close and rename succeeded -/
+theorem sftp_store_reports_every_failure (name digits b : Bytes) (e : SftpEnv) (d : RDir) (hd : digits ≠ []) :
+    (sftpStoreObject name digits b e d).res = .ok ↔
+      ((d.exists_ = true ∧ (e.create1 = true ∨ e.create2 = true)) ∨ (d.exists_ = false ∧ e.mkdir = true ∧ e.create2 = true)) ∧
+      e.copyFail = none ∧ e.close = true ∧ e.rename = true :=
+  Remote.sftp_store_ok_iff name digits b e d hd
+
+open Desync.Remote in
+/-- a failed close or rename leaves the whole object under the temp name, a failed copy whose `Remove` fails a prefix -/
+example : (sftpStoreObject [1] [48] [5, 6] ⟨true, true, true, none, true, true, false⟩ ⟨true, [([1], [9])]⟩).dir.files
+      = [([1, 48], [5, 6]), ([1], [9])] ∧
+    (sftpStoreObject [1] [48] [5, 6] ⟨true, true, true, some 1, false, true, true⟩ ⟨true, [([1], [9])]⟩).dir.files
+      = [([1, 48], [5]), ([1], [9])] ∧
+    (sftpStoreObject [1] [48] [5, 6] ⟨true, true, true, none, true, true, true⟩ ⟨true, [([1], [9])]⟩).dir.files
+      = [([1], [5, 6])] := by decide
+
+/-- what a failed `StoreObject` of a chunk leaves behind is a name `SFTPStore.Prune` classifies as a temporary file
+    and removes (C16 `sftp_temp_names`), never the canonical name of a chunk -/
+theorem sftp_leftover_is_pruned (unc : Bool) (id digits : Bytes) (h : id.length = 32) (hd : digits ≠ [])
+    (hall : digits.all isDigit = true) :
+    sftpClassify unc ((nameFromID unc id).2 ++ digits) = .removeTemp ∧
+    ∀ (b : Bool) (id' : Bytes), id'.length = 32 → (nameFromID unc id).2 ++ digits ≠ (nameFromID b id').2 :=
+  Remote.sftp_leftover_is_pruned unc id digits h hd hall
+
+open Desync.Remote in
+/-- **the SFTP connection pool is balanced**: under any interleaving of any number of methods, with any outcomes, the
+    connections in the channel plus those held by running methods are N; when none is running the pool is full again;
+    and with N ≥ 1 a request can always go on (a connection is free, or a running method can return and free one) -/
+theorem sftp_pool_balanced (n : Nat) (es : List PoolM.Ev) (s : PoolM.St) (hf : PoolM.faithful es = true)
+    (h : PoolM.run (PoolM.init n) es = some s) :
+    s.free + s.held = n ∧ (s.held = 0 → s.free = n) ∧
+    (1 ≤ n → (PoolM.step s .take).isSome = true ∨ (PoolM.step s (.finish true)).isSome = true) :=
+  PoolM.balanced n es s hf h
+
+open Desync.Remote in
+/-- one return path that keeps the connection blocks every later request on a pool of one (the D14 kind of hang) -/
+theorem sftp_pool_leak_blocks :
+    PoolM.run (PoolM.init 1) [.take, .finish false] = some ⟨0, 0⟩ ∧ ∀ e, PoolM.step ⟨0, 0⟩ e = none :=
+  PoolM.leak_blocks
+
+/-- **regenerated obligations** (statement skeletons of s3.go / sftp.go, `Proofs/RemoteStoresShapes.lean`) -/
+theorem gen_remote_s3_store :
+    Gen.site_remote_s3_store_found = true ∧ Gen.site_remote_s3_store_put_found = true ∧
+    Gen.remoteS3LoopAssignsOuterErr = true ∧ Gen.remoteS3StoreSkel = Remote.Expected.remoteS3StoreSkel :=
+  Remote.gen_remote_s3_store
+
+theorem gen_remote_has :
+    Gen.site_remote_s3_has_found = true ∧ Gen.site_remote_sftp_has_found = true ∧
+    Gen.remoteS3HasSkel = Remote.Expected.remoteS3HasSkel ∧ Gen.remoteSftpHasSkel = Remote.Expected.remoteSftpHasSkel :=
+  Remote.gen_remote_has
+
+theorem gen_remote_sftp_store :
+    Gen.site_remote_sftp_storeobject_found = true ∧ Gen.site_remote_sftp_store_found = true ∧
+    Gen.remoteSftpStoreObjectSkel = Remote.Expected.remoteSftpStoreObjectSkel ∧
+    Gen.remoteSftpStoreSkel = Remote.Expected.remoteSftpStoreSkel :=
+  Remote.gen_remote_sftp_store
+
+theorem gen_remote_pool :
+    Gen.site_remote_sftp_pool_found = true ∧
+    Gen.remoteSftpPoolDeferredPutBack = ["GetChunk", "HasChunk", "Prune", "RemoveChunk", "StoreChunk"] ∧
+    Gen.remoteSftpPoolOtherTakers = [] ∧ Gen.remoteSftpPoolDrains = ["Close"] :=
+  Remote.gen_remote_pool
 
 end Desync.C06
